@@ -23,6 +23,13 @@ TECHNIQUE = 'exhaustive enumeration of a parameter-file grammar; reference dicti
 ASSUMPTIONS = ['the interaction matrix is written as a lower triangle, as in the shipped file']
 
 NAMES = ('AAA', 'BB', 'C', 'D4')
+# group-type names the program itself uses (a protein type, a ligand type of the same chemistry, two more): a file may declare any
+# subset of them, look-ups are made for all
+REAL_NAMES = ('COO', 'HIS', 'OCO', 'NAR')
+
+
+def names_of(case):
+    return REAL_NAMES if case.get('names') == 'real' else NAMES
 
 
 def matrix_cases(tier):
@@ -37,6 +44,16 @@ def matrix_cases(tier):
                 if tier == 'quick' and n == 4 and order != tuple(range(4)) and order != (3, 2, 1, 0):
                     continue
                 out.append(dict(kind='matrix', n=n, m=[[i, j, m[(i, j)]] for (i, j) in pairs], order=list(order)))
+    # the same grammar over names the program knows (1-3 declared rows, all four names looked up)
+    for n in (1, 2, 3):
+        pairs = [(i, j) for i in range(n) for j in range(i + 1)]
+        for vals in itertools.product('IN', repeat=len(pairs)):
+            m = dict(zip(pairs, vals))
+            for sel in itertools.permutations(range(4), n):
+                out.append(dict(kind='matrix', n=n, m=[[i, j, m[(i, j)]] for (i, j) in pairs], order=list(range(n)), names='real', sel=list(sel)))
+    # the shipped matrix cut off after each of its rows
+    for k in range(1, 40):
+        out.append(dict(kind='matrix-prefix', rows=k))
     # a row declared a second time (whatever the values then are, both orientations of every pair must agree)
     for n in (2, 3):
         pairs = [(i, j) for i in range(n) for j in range(i + 1)]
@@ -47,12 +64,32 @@ def matrix_cases(tier):
     return out
 
 
+def case_names(case):
+    """Names in the order 'declared ones first' (a selection puts any subset of the name set first)."""
+    base = names_of(case)
+    sel = case.get('sel')
+    if sel is None:
+        return base
+    return tuple(base[i] for i in sel) + tuple(b for i, b in enumerate(base) if i not in sel)
+
+
+def shipped_matrix_rows():
+    rows = []
+    for ln in open(os.path.join(os.path.dirname(propka.__file__), 'propka.cfg')):
+        ln = ln.split('#')[0]                      # (the shipped rows end in a comment naming the next column)
+        w = ln.split()
+        if w and w[0] == 'interaction_matrix':
+            rows.append(' '.join(w) + '\n')
+    return rows
+
+
 def matrix_text(case):
     m = {}
     for i, j, v in case['m']:
         m[(i, j)] = m[(j, i)] = v
     lines = []
     order = case['order']
+    NAMES = case_names(case)
     for r, gi in enumerate(order):
         row = [m[(gi, order[c])] for c in range(r + 1)]
         lines.append('interaction_matrix %s %s\n' % (NAMES[gi], ' '.join(row)))
@@ -303,6 +340,8 @@ def case_text(case):
     k = case['kind']
     if k == 'matrix':
         return matrix_text(case)[0]
+    if k == 'matrix-prefix':
+        return ''.join(shipped_matrix_rows()[:case['rows']])
     if k == 'pairs':
         return pair_text(case)[0]
     if k == 'pairs2':
@@ -316,10 +355,31 @@ def verify(case, p, acc, pristine=None):
     """Look-ups on the Parameters object p read from the file of `case`, against the reference written from the statement."""
     k = case['kind']
     v = []
-    if k == 'matrix':
+    if k == 'matrix-prefix':
+        rows = shipped_matrix_rows()
+        names = [r.split()[1] for r in rows]
+        full = {}
+        for r, row in enumerate(rows):
+            for c, val in enumerate(row.split()[2:]):
+                full[(names[r], names[c])] = full[(names[c], names[r])] = val
+        declared = set(names[:case['rows']])
+        im = p.interaction_matrix
+        acc.extra['states'] += case['rows']
+        acc.extra['transitions'] += len(names) ** 2
+        for a in names + ['ZZZ']:
+            for b in names + ['ZZZ']:
+                g1, g2 = im.get_value(a, b), im.get_value(b, a)
+                want = full.get((a, b)) if a in declared and b in declared else None
+                if g1 != g2:
+                    v.append(('matrix-asymmetric/shipped-rows-cut-off', 'first %d rows: get_value(%s,%s)=%r but (%s,%s)=%r' % (case['rows'], a, b, g1, b, a, g2)))
+                elif g1 != want:
+                    v.append(('matrix-wrong-value/shipped-rows-cut-off' if want is not None else 'matrix-undeclared-name-has-value/shipped-rows-cut-off',
+                              'first %d rows: get_value(%s,%s)=%r expected %r' % (case['rows'], a, b, g1, want)))
+    elif k == 'matrix':
         text, m = matrix_text(case)
         im = p.interaction_matrix
         n = case['n']
+        NAMES = case_names(case)
         acc.extra['states'] += n
         acc.extra['transitions'] += n * (n + 1) // 2
         for i in range(n):
@@ -387,7 +447,7 @@ def sequence_cases(tier):
     pool = []
     pc = [c for c in pair_cases('quick') if c['kind'] == 'pairs' and len(c['lines']) <= 2 and c['default_at'] == 0]
     pool += pc[:: max(1, len(pc) // (10 if tier == 'quick' else 24))]
-    mc = [c for c in matrix_cases('quick') if c['n'] in (1, 2, 3) and c['order'] == sorted(c['order'])]
+    mc = [c for c in matrix_cases('quick') if c['kind'] == 'matrix' and 'names' not in c and c['n'] in (1, 2, 3) and c['order'] == sorted(c['order'])]
     pool += mc[:: max(1, len(mc) // (8 if tier == 'quick' else 20))]
     sc = scalar_cases('quick')
     pool += sc[:: max(1, len(sc) // (8 if tier == 'quick' else 20))]
@@ -404,6 +464,9 @@ def sequence_cases(tier):
 
 
 def run_case(case, ctx, acc):
+    if case['kind'] == 'matrix-prefix' and case['rows'] > len(shipped_matrix_rows()):
+        acc.skipped += 1
+        return
     if case['kind'] in ('matrix', 'pairs', 'pairs2', 'scalars') and 'fmt' not in case:
         for fmt in FORMATS:     # the same content written with each line-ending convention
             run_case(dict(case, fmt=fmt), ctx, acc)
@@ -425,10 +488,10 @@ def run_case(case, ctx, acc):
             for ck, what in verify(f, p, acc, pristine=pristine):
                 v.append(('%s/after-reading-%d-files/file-%d' % (ck, len(objs), i + 1), what))
         acc.case(nontrivial_key=jhash(case), outcome='read-sequence')
-    elif k in ('matrix', 'pairs', 'pairs2', 'scalars'):
+    elif k in ('matrix', 'matrix-prefix', 'pairs', 'pairs2', 'scalars'):
         p = read(case_text(case), fmt=fmt)
         v += verify(case, p, acc)
-        acc.case(nontrivial_key=jhash(case), outcome={'matrix': 'matrix-%d' % case.get('n', 0), 'scalars': 'scalars'}.get(k, 'pairs-%d' % len(case.get('lines', case.get('script', [])))))
+        acc.case(nontrivial_key=jhash(case), outcome={'matrix': 'matrix-%d' % case.get('n', 0), 'scalars': 'scalars', 'matrix-prefix': 'matrix-prefix'}.get(k, 'pairs-%d' % len(case.get('lines', case.get('script', [])))))
     elif k == 'squared':
         name, val, how = case['name'], case['value'], case['how']
         lines = {'plain': ['%s %r\n' % (name, val)], 'squared': ['%s_squared %r\n' % (name, val)],
